@@ -244,10 +244,10 @@ PROPS = {
              "bound": "two flat names with the fixed label layout 1+2 content octets and the root label; all content octets",
              "what": "Name: name_eq and == on the compiled code (flat-slice fast path) equal label-wise equality up to ASCII case -- "
                      "the compiled counterpart of unit nameorder's name_eq contract, independent of how the comparison is written"},
-            {"group": "g0", "name": "c04_name_eq_implies_hash_eq_fixed_layout_bounded", "kind": "bounded", "tier": "quick", "timeout": 900,
+            {"group": "g0", "name": "c04_name_eq_implies_hash_eq_fixed_layout_bounded", "kind": "bounded", "tier": "thorough", "timeout": 900,
              "bound": "two flat names with the fixed label layout 1+2 content octets and the root label; all content octets",
              "what": "Name: names that compare equal write the same octets to any Hasher (Hash for Name walks the labels)"},
-            {"group": "g0", "name": "c04_name_composed_cmp_fixed_layout_bounded", "kind": "bounded", "tier": "quick", "timeout": 900,
+            {"group": "g0", "name": "c04_name_composed_cmp_fixed_layout_bounded", "kind": "bounded", "tier": "thorough", "timeout": 900,
              "bound": "two flat names with the fixed label layout 1+2 content octets and the root label; all content octets",
              "what": "Name: composed_cmp == octet order of the wire forms, lowercase_composed_cmp == octet order of the lower-cased "
                      "wire forms, on the compiled code (counterpart of unit nameorder, independent of fast paths and adapters)"},
@@ -539,7 +539,7 @@ PROPS = {
              "bound": "buffers of at most 6 octets, every position 0..=8",
              "what": "the contract that unit zfsource assumes for Symbol::from_slice_index (end position > pos and <= len; None "
                      "exactly at the end), checked on the compiled function"},
-            {"group": "repo_zonefile", "name": "c07_next_item_total_bounded", "kind": "bounded", "tier": "quick", "timeout": 900,
+            {"group": "repo_zonefile", "name": "c07_next_item_total_bounded", "kind": "bounded", "tier": "thorough", "timeout": 900,
              "bound": "buffer tails of at most 4 octets (every octet value), parenthesis depth 0..=2, loop bound 6 iterations",
              "what": "SourceBuf::next_item on the compiled code (in-crate harness): returns without panic or out-of-bounds read, "
                      "stays inside the buffer, and the item category matches the octet it stopped at -- independent of how the "
